@@ -514,3 +514,42 @@ def module_path_absolute(ctx):
         ctx.check(wrapped, "module-directory-path", db.where(c),
                   "the module path below module_directory is not made absolute (`%s`): with a relative module_directory the module is registered under a relative name while Python reports its frames and warnings under the absolute one, so they are no longer mapped back to the template" % " ".join(src(enclosing_stmt(c)).split())[:100],
                   "os.path.abspath applied")
+
+
+@rule("C12.frame-cache-key", min_instances=2)
+def frame_cache_key(ctx):
+    """what RichTraceback remembers about a template module while it walks one traceback (line map, template lines, file name) is remembered under the very file name the frame was looked up with: two modules never share an entry"""
+    db = ctx.db
+    init = db.func("exceptions.RichTraceback._init")
+    fns = [init] + [f for g in db.with_helpers(init) for f in ast.walk(g) if isinstance(f, ast.FunctionDef) and f is not init]
+    seen = set()
+    fns = [f for f in fns if not (id(f) in seen or seen.add(id(f)))]
+    empties = {a.targets[0].id for f in fns for a in walk_func(f) if isinstance(a, ast.Assign) and len(a.targets) == 1 and isinstance(a.targets[0], ast.Name) and isinstance(a.value, ast.Dict) and not a.value.keys}
+    looked = []
+    for f in fns:
+        for c in walk_func(f):
+            if isinstance(c, ast.Call) and (dotted(c.func) or "").endswith("_get_module_info") and c.args:
+                looked.append((f, c))
+    ctx.require(looked, "RichTraceback._init: the look-up of the frame's module (_get_module_info) was not found (anchor)")
+    # names that stand for the file name of the frame at hand: the first element unpacked from a raw traceback record, and the
+    # parameters through which helpers receive it
+    frame_names = set()
+    for f in fns:
+        for lp in walk_func(f):
+            if isinstance(lp, ast.For) and isinstance(lp.target, ast.Tuple) and len(lp.target.elts) == 4 and isinstance(lp.target.elts[0], ast.Name):
+                frame_names.add(lp.target.elts[0].id)
+    for f, c in looked:
+        a0 = resolve_deep(f, c.args[0])
+        if isinstance(a0, ast.Name):
+            frame_names.add(a0.id)
+    n = 0
+    for f in fns:
+        for s_ in walk_func(f):
+            if isinstance(s_, ast.Subscript) and isinstance(s_.value, ast.Name) and s_.value.id in empties and not isinstance(s_.slice, ast.Slice):
+                k_ = resolve_deep(f, s_.slice)
+                key = " ".join(src(k_).split())
+                n += 1
+                ctx.check(isinstance(k_, ast.Name) and k_.id in frame_names, "key:%s" % ("store" if isinstance(s_.ctx, ast.Store) else "load"), db.where(s_),
+                          "the per-traceback memo `%s` is indexed by `%s`, not by the file name the frame's module was looked up with: two template modules that agree on that value (the same uri served by two lookups, each with its own module directory) share one entry, and the second one's frames are reported with the first one's file name, line map and source" % (s_.value.id, key),
+                          "memo indexed by the file name of the frame")
+    ctx.require(n >= 2, "RichTraceback._init: the memo of template modules was not found (anchor)")
